@@ -192,7 +192,15 @@ def check(ctx):
                     ctx.fail('C04.1', site, 'push onto a vector that is not the matched node\'s assertions: %s' % fmt(base), key='C04.1|pushbase|' + b.path)
                 continue
             if node_assertions_of_self(sv):
-                ctx.ok('C04.1', site, 'assertion vector of the matched node reused unchanged (non-empty, valid and duplicate-free by induction)')
+                if sv[0] == 'call':
+                    # accessor form assertions(self): empty for a non-node receiver, so a not-empty guard is required
+                    ok, info = guard_dominates(b, tb, [bi], lambda t: t[0] == 'call' and call_name(t) == 'is_empty' and strip_sites(t[2][0]) == sv, False)
+                    if not ok:
+                        ctx.fail('C04.1', site, 'node built over assertions(self) without a not-empty guard: ' + info, key='C04.1|accessor_empty|' + b.path)
+                        continue
+                    ctx.ok('C04.1', site, 'assertions(self) reused unchanged on the not-empty edge; ' + info)
+                else:
+                    ctx.ok('C04.1', site, 'assertion vector of the matched node reused unchanged (non-empty, valid and duplicate-free by induction)')
                 ctx.ok('C04.7', site, 'digest-multiset-preserving: the same vector')
                 continue
             col = m_call(sv, name='collect', trait='Iterator')
